@@ -259,6 +259,55 @@ fn stdin_cases(rng: &mut Rng, cases: &mut u64) -> Option<Vec<(String, String)>> 
     None
 }
 
+/// every subcommand that accepts `-` (the composition commands; `min`, `cov`, `ctr` infer the format from the file name and do not) gives the same result for `-i -` (records on standard input,
+/// child process) as for `-i <file>` with the same records (lines compared as a multiset where order is unspecified)
+fn stdin_vs_file_cases(rng: &mut Rng, cases: &mut u64) -> Option<Vec<(String, String)>> {
+    use std::io::Write;
+    let recs: Vec<Vec<u8>> = test_recs(rng, 5).iter().map(|r| r.iter().map(|&b| if clean(b) { b } else { b'A' }).collect()).collect();
+    let mut fasta: Vec<u8> = Vec::new();
+    for (i, r) in recs.iter().enumerate() { fasta.extend_from_slice(format!(">r{}\n", i).as_bytes()); fasta.extend_from_slice(r); fasta.push(b'\n'); }
+    let variants: Vec<(Vec<&str>, bool)> = vec![
+        (vec!["comp", "cgr", "-t", "2"], false),
+        (vec!["comp", "cgr", "-k", "3", "-t", "2"], false),
+        (vec!["comp", "cgr", "-k", "3", "-c", "-t", "2"], false),
+    ];
+    for (base, unordered) in variants {
+        let sc = Scratch::new("clistdin2");
+        let inp = sc.path("in.fa"); let out_f = sc.path("file.txt"); let out_s = sc.path("stdin.txt");
+        std::fs::write(&inp, &fasta).unwrap();
+        let mut a_file: Vec<String> = base.iter().map(|x| x.to_string()).collect();
+        a_file.extend(sv(&["-i", &inp, "-o", &out_f]));
+        let mut a_stdin: Vec<String> = base.iter().map(|x| x.to_string()).collect();
+        a_stdin.extend(sv(&["-i", "-", "-o", &out_s]));
+        *cases += 1;
+        if let Err(e) = run_cli(&a_file) { return wit(&a_file, e); }
+        let exe = match std::env::current_exe() { Ok(e) => e, Err(_) => return None };
+        let mut full = vec!["stdin-cli".to_string()]; full.extend(a_stdin.iter().cloned());
+        let mut child = match std::process::Command::new(exe).args(&full)
+            .stdin(std::process::Stdio::piped()).stdout(std::process::Stdio::null()).stderr(std::process::Stdio::null()).spawn() { Ok(c) => c, Err(_) => return None };
+        if let Some(mut si) = child.stdin.take() { let _ = si.write_all(&fasta); }
+        let st = match child.wait() { Ok(s) => s, Err(_) => return None };
+        if !st.success() { return wit(&a_stdin, format!("records on standard input: the run failed ({:?}); the same records in a file are processed", st.code())); }
+        let norm = |t: String| -> Vec<String> {
+            let mut l: Vec<String> = t.split('\n').map(|x| {
+                if unordered && x.contains("\t[") {
+                    // m2s line: the list order inside a line is unspecified as well
+                    let (k, v) = x.split_once('\t').unwrap();
+                    let mut items: Vec<&str> = v.trim_start_matches('[').trim_end_matches(']').split("), (").collect();
+                    items.sort();
+                    format!("{}\t{}", k, items.join("|"))
+                } else { x.to_string() }
+            }).collect();
+            if unordered { l.sort(); }
+            l
+        };
+        let tf = norm(std::fs::read_to_string(&out_f).unwrap_or_default());
+        let ts = norm(std::fs::read_to_string(&out_s).unwrap_or_default());
+        if tf != ts { return wit(&a_stdin, format!("records on standard input give {} lines, the same records in a file give {} lines, or their contents differ", ts.len(), tf.len())); }
+    }
+    None
+}
+
 pub fn c15(o: &Opts) -> Outcome {
     let mut cases = 0u64;
     if let Some(inp) = &o.input {
@@ -266,7 +315,7 @@ pub fn c15(o: &Opts) -> Outcome {
         let _ = inp;
     }
     let mut rng = Rng(o.seed.wrapping_mul(0x9E3779B97F4A7C15) | 1);
-    for f in [oligo_cases, cgr_cases, cov_cases, min_ctr_cases, stdin_cases] {
+    for f in [oligo_cases, cgr_cases, cov_cases, min_ctr_cases, stdin_cases, stdin_vs_file_cases] {
         if let Some(w) = f(&mut rng, &mut cases) { return Outcome { cases, witness: Some(w) }; }
     }
     Outcome { cases, witness: None }
